@@ -466,6 +466,48 @@ pub fn image(_args: &[String]) -> i32 {
     0
 }
 
+/// C14 (expressions): which projections of a UNIQUE column keep the constraint.  stdin: {"n": N} then
+/// {"expr": term over column 0, "cols": [type]} per line.  For every embedding: the constraint the real Map gives the
+/// projected column, and the value of the expression on every universe point of the column (distinct inputs).
+pub fn unique(_args: &[String]) -> i32 {
+    use qrlew::builder::{Ready, With};
+    use qrlew::relation::{field::Constraint, Field, Relation, Schema, Variant as _};
+    let mut cases = read_cases();
+    let header = cases.remove(0);
+    let n = header["n"].as_u64().unwrap() as usize;
+    let mut out = Out::new();
+    for e in more_embeddings() {
+        for (ci, c) in cases.iter().enumerate() {
+            let cols: Vec<J> = c["cols"].as_array().unwrap().clone();
+            let r = guarded(|| {
+                let expr = conc_expr(&c["expr"], &e);
+                let table: Relation = Relation::table()
+                    .name("t")
+                    .schema(Schema::new(vec![Field::new("c0".to_string(), conc_type(&cols[0], &e), Some(Constraint::Unique))]))
+                    .size(10)
+                    .build();
+                let map = guarded(|| -> Relation { Relation::map().with(("y", expr.clone())).input(table.clone()).build() });
+                let (mo, kept) = match &map {
+                    Ok(m) => ("ok", m.schema()[0].has_unique_or_primary_key_constraint()),
+                    Err(_) => ("panic", false),
+                };
+                let mut ys = vec![];
+                for row in rows_of(&cols[..1], n, 48) {
+                    let rv = Value::structured(vec![("c0".to_string(), conc_value(&row[0], &e))]);
+                    ys.push(match guarded(|| expr.value(&rv)) {
+                        Ok(Ok(y)) => crate::dt::value_json(&y),
+                        _ => json!({"k": "err"}),
+                    });
+                }
+                json!({"case": ci, "emb": e.name, "map": mo, "unique_kept": kept, "ys": ys})
+            });
+            out.put(&r.unwrap_or_else(|p| json!({"case": ci, "emb": e.name, "map": "harness_panic", "unique_kept": false, "ys": [], "msg": p})));
+        }
+    }
+    out.flush();
+    0
+}
+
 /// C10: filter narrowing.  stdin: {"n": N} then {"pred": term, "cols": [types]} per line.
 pub fn filter(_args: &[String]) -> i32 {
     let mut cases = read_cases();
